@@ -39,14 +39,14 @@ def plan(tier, seed):
 
 def floors(tier):
     return {"cls:feature_interaction_query": 300, "distinct_nontrivial": 200, "cls:pos:cond": 500, "cls:pos:operand_an": 100, "cls:pos:operand_the": 30,
-            "cls:pos:argument": 100, "cls:pos:correlated_the": 100, "cls:pos:correlated_an": 100, "cls:pos:operand_value_eq": 100, "cls:pos:pred_arg_bound": 100, "cls:pos:ctor_arg_bound": 100, "cls:pos:operand_in_or": 100, "cls:pos:operand_attr": 100, "cls:pos:container": 100, "cls:pos:alias_in_or": 100, "cls:pos:selected_operand_in_or": 100, "cls:conn:&": 150, "cls:conn:|": 150, "cls:sub:set": 100, "cls:sub:ent0": 100,
+            "cls:pos:argument": 100, "cls:pos:correlated_the": 100, "cls:pos:correlated_an": 100, "cls:pos:operand_value_eq": 100, "cls:pos:pred_arg_bound": 100, "cls:pos:ctor_arg_bound": 100, "cls:pos:operand_in_or": 100, "cls:pos:operand_attr": 100, "cls:pos:container": 100, "cls:pos:alias_in_or": 100, "cls:pos:selected_operand_in_or": 100, "cls:pos:selected_attr_of_subquery": 100, "cls:conn:&": 150, "cls:conn:|": 150, "cls:sub:set": 100, "cls:sub:ent0": 100,
             "cls:sub:ent1": 100, "cls:with_plain": 100, "re:An@.*\\.enter": 1000}
 
 
 def gen_case(rng):
     world = D.random_world(rng, np_=(2, 4), nq=(2, 4))
     pos = rng.choice(["cond", "cond", "cond", "operand_an", "operand_the", "argument", "correlated_the", "correlated_an",
-                      "operand_value_eq", "pred_arg_bound", "ctor_arg_bound", "operand_in_or", "operand_attr", "container", "alias_in_or", "selected_operand_in_or"])
+                      "operand_value_eq", "pred_arg_bound", "ctor_arg_bound", "operand_in_or", "operand_attr", "container", "alias_in_or", "selected_operand_in_or", "selected_attr_of_subquery"])
     case = {"world": world, "pos": pos, "caching": rng.random() < 0.7}
     if pos == "alias_in_or":
         # ONE attribute expression object (flag = y.flag, falsy values in the data) is the operand of a comparison and the whole
@@ -120,6 +120,10 @@ def expected(case, world):
     if case["pos"] == "container":
         # in_(x.a, an(entity(y.t, c1))) / contains(an(entity(y.t, c1)), x.a): the sub-query's solutions are the containers
         return [(m[id(q)],) for q in qs if any(q.a in p.t for p in sols)]
+    if case["pos"] == "selected_attr_of_subquery":
+        # sub = an(entity(y, c1)); an(set_of([x, sub.b], x.p == y)): only an ATTRIBUTE of the sub-query is selected, the
+        # conditions mention its variable but not the sub-query; every selected value belongs to a y that satisfies c1
+        return [(m[id(q)], "val:" + repr(p.b)) for p in sols for q in qs if q.p is p]
     if case["pos"] == "selected_operand_in_or":
         # sub = an(entity(y, c1)); an(set_of([sub, x], (x.a == k0) | (x.p == sub))): the sub-query is SELECTED and the conditions
         # mention it only in the later alternative; every selected y satisfies c1, also on rows the first alternative accepts
@@ -220,7 +224,8 @@ def run(case, world, caching, times=1, flattened=False):
             else:
                 y = let(D.P, ps)
                 x = let(D.Q, qs)
-                if flattened and case["pos"] not in ("operand_in_or", "operand_attr", "container", "selected_operand_in_or"):
+                if flattened and case["pos"] not in ("operand_in_or", "operand_attr", "container", "selected_operand_in_or",
+                                                     "selected_attr_of_subquery"):
                     q = an(set_of([x], x.p == y, C.build(case["c1"], [y], 0, False)))
                 elif case["pos"] == "operand_attr":
                     op = C.OPS[case.get("op2", "<=")]
@@ -236,6 +241,14 @@ def run(case, world, caching, times=1, flattened=False):
                         q = an(set_of([x], in_(x.a, an(entity(y.t, C.build(case["c1"], [y], 0, False))))))
                     else:
                         q = an(set_of([x], contains(an(entity(y.t, C.build(case["c1"], [y], 0, False))), x.a)))
+                elif case["pos"] == "selected_attr_of_subquery":
+                    if flattened:
+                        sel_ = [x, y.b]
+                        q = an(set_of(sel_, x.p == y, C.build(case["c1"], [y], 0, False)))
+                    else:
+                        sub = an(entity(y, C.build(case["c1"], [y], 0, False)))
+                        sel_ = [x, sub.b]
+                        q = an(set_of(sel_, x.p == y))
                 elif case["pos"] == "selected_operand_in_or":
                     if flattened:
                         q = an(set_of([y, x], C.build(case["c1"], [y], 0, False), (x.a == case["k0"]) | (x.p == y)))
@@ -257,7 +270,7 @@ def run(case, world, caching, times=1, flattened=False):
                     term = D.Q(From(qs), p=sub)
                     q = an(set_of([term]))
                     x = term
-                sel = sel_ if case["pos"] == "selected_operand_in_or" else [x]
+                sel = sel_ if case["pos"] in ("selected_operand_in_or", "selected_attr_of_subquery") else [x]
         if case["pos"] == "ctor_arg_bound":
             from entity_query_language import infer
             from entity_query_language.symbolic import rule_mode
@@ -271,8 +284,10 @@ def run(case, world, caching, times=1, flattened=False):
                     q = infer(entity(D.Q(p=sub, a=x.a), x.p == y))
             return [sorted({(H.lab(m, r.p), r.a) for r in q.evaluate()}) for _ in range(times)]
         out = []
+        val = (lambda v: m[id(v)] if id(v) in m else "val:" + repr(v)) if case["pos"] == "selected_attr_of_subquery" else \
+            (lambda v: H.lab(m, v))
         for _ in range(times):
-            out.append([tuple(H.lab(m, r[s]) for s in sel) for r in q.evaluate()])
+            out.append([tuple(val(r[s]) for s in sel) for r in q.evaluate()])
         return out
     finally:
         enable_caching()
@@ -315,11 +330,18 @@ def check_case(case, ctx):
     if 0 < len(set(exp)) < total:
         ctx.nontrivial()
     try:
-        got = run(case, world, case["caching"])[0]
+        gots = run(case, world, case["caching"], times=3)
+        got = gots[0]
     except Exception as e:
         import traceback
         ctx.fail("EXC", f"composed: {type(e).__name__}: {e}\n{traceback.format_exc()[-800:]}")
         return
+    for n_, g_ in enumerate(gots[1:]):
+        # the same composed query object evaluated again: nothing that a sub-query remembered may change its answer
+        if set(g_) != set(got):
+            ctx.fail("REEVALUATION", {"evaluation": n_ + 2, "only_first": sorted(set(got) - set(g_))[:8],
+                                      "only_later": sorted(set(g_) - set(got))[:8]}, which="composed")
+            break
     try:
         flat = run(case, world, case["caching"], flattened=True)[0]
     except Exception as e:
